@@ -207,10 +207,10 @@ var xmlCombosList = []struct {
 func init() {
 	Register(&sim.Check{
 		ID: "C18", Level: "fault_enumeration", Run: runC18, NoBubble: true,
-		Rule: "per run: a short generated history is executed on the direct device which captures the 8 XML change documents of every Set (real tree, real ToXML); for up to 3 (thorough 8) of these documents plus the empty one, the real ncTarget.Set is driven around an in-process netconf.Driver for both commit-datastore settings x the 8 option combinations x every failure point of the driver call sequence (edit-config rpc-error, edit-config EOF, commit error, commit EOF, each combined with a failing or dying discard) - this finite space is enumerated completely per document. Oracle over the recorded driver calls and the fake device's candidate. Distinct = (datastore, failure case, document kind, call sequence).",
-		Real: []string{"pkg/datastore/target/nc.go (Set, setCandidate, setRunning) via VerifNewNCTarget", "pkg/tree ToXML on trees built by the real transaction pipeline", "pkg/datastore, pkg/tree, cache, schema store (to produce the documents)"},
-		Stub: []string{"netconf.Driver (in-process, records calls, candidate/running as lists of accepted edits, per-call failure injection)", "reconnect() after a dead connection dials 127.0.0.1:1 and then sleeps 24h (real goroutine, not judged)"},
-		Assume: []string{"an edit-config that errors leaves its target datastore unchanged (atomic edit)", "runs outside the synctest bubble because reconnect() dials a real socket"},
+		Rule:         "per run: a short generated history is executed on the direct device which captures the 8 XML change documents of every Set (real tree, real ToXML); for up to 3 (thorough 8) of these documents plus the empty one, the real ncTarget.Set is driven around an in-process netconf.Driver for both commit-datastore settings x the 8 option combinations x every failure point of the driver call sequence (edit-config rpc-error, edit-config EOF, commit error, commit EOF, each combined with a failing or dying discard) - this finite space is enumerated completely per document. Oracle over the recorded driver calls and the fake device's candidate. Distinct = (datastore, failure case, document kind, call sequence).",
+		Real:         []string{"pkg/datastore/target/nc.go (Set, setCandidate, setRunning) via VerifNewNCTarget", "pkg/tree ToXML on trees built by the real transaction pipeline", "pkg/datastore, pkg/tree, cache, schema store (to produce the documents)"},
+		Stub:         []string{"netconf.Driver (in-process, records calls, candidate/running as lists of accepted edits, per-call failure injection)", "reconnect() after a dead connection dials 127.0.0.1:1 and then sleeps 24h (real goroutine, not judged)"},
+		Assume:       []string{"an edit-config that errors leaves its target datastore unchanged (atomic edit)", "runs outside the synctest bubble because reconnect() dials a real socket"},
 		QuickSeconds: 25, ThoroughSeconds: 300,
 	})
 }
